@@ -404,15 +404,256 @@ Proof.
   apply wrap_groups_block in B3. destruct B3 as [u3 [-> [L3 ->]]].
   apply wrap_groups_block in B4. destruct B4 as [u4 [-> [L4 ->]]].
   match goal with H : mk_msgs _ = OK _ |- _ => rename H into HM end.
-  pose proof (stage2 _ _ (ltac:(repeat (apply Forall_app; split); try apply blk_ne; constructor)) HM) as D.
+  assert (NE : Forall (fun p : msgset * list etree => snd p <> [])
+                 (blk (msgset_of KCcStmtEnd) (W c (of_kind KCcStmtEnd reqs) u0) ++ blk (msgset_of KCcStmt) (W c (of_kind KCcStmt reqs) u1)
+                  ++ blk (msgset_of KInvStmt) (W c (of_kind KInvStmt reqs) u2) ++ blk (msgset_of KStmtEnd) (W c (of_kind KStmtEnd reqs) u3)
+                  ++ blk (msgset_of KStmt) (W c (of_kind KStmt reqs) u4) ++ [])%list).
+  { do 5 (apply Forall_app; split; [apply blk_ne|]). constructor. }
+  pose proof (stage2 _ _ NE HM) as D. clear NE.
   match goal with H : signon _ _ _ _ = OK _ |- _ => apply signon_shape in H; destruct H as [-> _] end.
   match goal with H : mk_OFX _ _ = OK _ |- _ => apply mk_OFX_ok in H; destruct H as [ch [Hc ->]] end.
   repeat (apply collect_cons in Hc; let a := fresh "a" in let b := fresh "b" in let Ha := fresh "Ha" in
           destruct Hc as [a [b [Ha [Hc ->]]]]).
   apply collect_nil in Hc. subst. inv_fields.
-  rewrite !D. rewrite !members_app, !members_blk. cbn [msgset_of msgset_eqb app]. rewrite !app_nil_r.
-  match goal with H : serialize _ _ _ _ _ = OK _ |- _ => apply serialize_ok in H; destruct H as [Eb [Eh Eg]] end.
+  rewrite !D in H. rewrite !members_app, !members_blk in H. cbn [msgset_of msgset_eqb app] in H. rewrite !app_nil_r in H.
+  apply serialize_ok in H. destruct H as [Eb [Eh Eg]].
   match goal with H : _ = OK ?nf |- _ => apply newfileuid_ok in H; rename H into En end.
   exists u0, u1, u2, u3, u4, uu'. cbn [dflt] in *. rewrite En in Eh. rewrite Eb.
   repeat (split; [assumption || reflexivity|]). assumption.
+Qed.
+
+(** one wrapper per request: the five per-kind lists partition the requests *)
+Lemma of_kind_total reqs :
+  (List.length (of_kind KCcStmtEnd reqs) + List.length (of_kind KCcStmt reqs) + List.length (of_kind KInvStmt reqs)
+   + List.length (of_kind KStmtEnd reqs) + List.length (of_kind KStmt reqs) = List.length reqs)%nat.
+Proof.
+  rewrite <- (isort_length kind_leb reqs), sort_closed, !app_length. lia.
+Qed.
+(** "in request order within each kind": the wrappers of a kind follow the sub-sequence of the requests of that kind *)
+Lemma of_kind_cons k r reqs :
+  of_kind k (r :: reqs) = if kind_eqb (kind_of r) k then r :: of_kind k reqs else of_kind k reqs.
+Proof. reflexivity. Qed.
+
+(* ------------------------------------------------------------------ the other three requests *)
+Lemma norm_or_none v : norm (or_none v) = norm v.
+Proof. destruct v as [[|x s]|]; reflexivity. Qed.
+
+Theorem accounts_closed c uuids d pw dtacctup gen r :
+  request_accounts c uuids d pw dtacctup gen = OK r ->
+  exists u rest,
+    uuids = u :: rest
+    /\ c_body r = Node (T "OFX") None
+         [spec_signon c d (userid c) pw;
+          Node (T "SIGNUPMSGSRQV1") None
+            [wrapper "ACCTINFOTRNRQ" u (Node (T "ACCTINFORQ") None (leaf (T "DTACCTUP") (dtext dtacctup)))]]
+    /\ header_text (version c) (if gen then hd_error rest else None) = OK (c_header r)
+    /\ negb (close_elements c) && (200 <=? version c) = false.
+Proof.
+  unfold request_accounts, trnrq. intros H. inv_ok.
+  destruct uuids as [|u rest]; [discriminate|]. cbn [take_uuid] in *.
+  repeat match goal with H : OK (_, _) = OK _ |- _ => inversion H; subst; clear H end. cbn [fst snd] in *.
+  match goal with H : signon _ _ _ _ = OK _ |- _ => apply signon_shape in H; destruct H as [-> _] end.
+  match goal with H : mk_OFX _ _ = OK _ |- _ => apply mk_OFX_ok in H; destruct H as [ch [Hc ->]] end.
+  repeat (apply collect_cons in Hc; let a := fresh "a" in let b := fresh "b" in let Ha := fresh "Ha" in
+          destruct Hc as [a [b [Ha [Hc ->]]]]).
+  apply collect_nil in Hc. subst.
+  match goal with H : aggl _ _ = OK _ |- _ => apply aggl_ok in H; subst end.
+  inv_aggs. inv_fields.
+  match goal with H : serialize _ _ _ _ _ = OK _ |- _ => apply serialize_ok in H; destruct H as [Eb [Eh Eg]] end.
+  match goal with H : _ = OK ?nf |- _ => apply newfileuid_ok in H; rename H into En end.
+  exists u, rest. cbn [dflt] in *. rewrite En in Eh. rewrite Eb.
+  split; [reflexivity|]. split; [|split; assumption].
+  unfold wrapper. cbn [olist app]. rewrite ?app_nil_r. reflexivity.
+Qed.
+
+Theorem tax_closed c uuids d pw years acctnum recid gen r :
+  request_tax1099 c uuids d pw years acctnum recid gen = OK r ->
+  exists u rest len ys,
+    uuids = u :: rest
+    /\ lookup_attr (T "TAX1099RQ") (T "taxyear") = Some (CListInt len)
+    /\ taxyear_elems len years = OK ys
+    /\ c_body r = Node (T "OFX") None
+         [spec_signon c d (userid c) pw;
+          Node (T "TAX1099MSGSRQV1") None
+            [wrapper "TAX1099TRNRQ" u
+               (Node (T "TAX1099RQ") None
+                  (leaf (T "ACCTNUM") (norm acctnum) ++ leaf (T "RECID") (norm recid) ++ ys))]]%list
+    /\ header_text (version c) (if gen then hd_error rest else None) = OK (c_header r)
+    /\ negb (close_elements c) && (200 <=? version c) = false.
+Proof.
+  unfold request_tax1099, trnrq. intros H. inv_ok.
+  destruct uuids as [|u rest]; [discriminate|]. cbn [take_uuid] in *.
+  repeat match goal with H : OK (_, _) = OK _ |- _ => inversion H; subst; clear H end. cbn [fst snd] in *.
+  match goal with H : signon _ _ _ _ = OK _ |- _ => apply signon_shape in H; destruct H as [-> _] end.
+  match goal with H : mk_OFX _ _ = OK _ |- _ => apply mk_OFX_ok in H; destruct H as [ch [Hc ->]] end.
+  repeat (apply collect_cons in Hc; let a := fresh "a" in let b := fresh "b" in let Ha := fresh "Ha" in
+          destruct Hc as [a [b [Ha [Hc ->]]]]).
+  apply collect_nil in Hc. subst.
+  match goal with H : aggl _ _ = OK _ |- _ => apply aggl_ok in H; subst end.
+  match goal with H : mk_TAX1099RQ _ _ _ = OK _ |- _ => unfold mk_TAX1099RQ in H; rename H into HT end.
+  destruct (lookup_class (T "TAX1099RQ")) as [cl|]; [|discriminate].
+  destruct (lookup_attr (T "TAX1099RQ") (T "taxyear")) as [[| | | | | |len| |]|] eqn:EL; try discriminate.
+  destruct (cc_elementlist cl); [|discriminate]. inv_ok.
+  match goal with H : collect _ = OK _ |- _ => rename H into Hc end.
+  repeat (apply collect_cons in Hc; let a := fresh "a" in let b := fresh "b" in let Ha := fresh "Ha" in
+          destruct Hc as [a [b [Ha [Hc ->]]]]).
+  apply collect_nil in Hc. subst.
+  inv_aggs. inv_fields.
+  match goal with H : serialize _ _ _ _ _ = OK _ |- _ => apply serialize_ok in H; destruct H as [Eb [Eh Eg]] end.
+  match goal with H : (if gen then _ else _) = OK ?nf |- _ => apply newfileuid_ok in H; rename H into En end.
+  match goal with H : taxyear_elems _ _ = OK ?ys |- _ => exists u, rest, len, ys; rename H into HY end.
+  cbn [dflt] in *. rewrite En in Eh. rewrite Eb.
+  split; [reflexivity|]. split; [reflexivity|]. split; [exact HY|]. split; [|split; assumption].
+  unfold wrapper. cbn [olist app]. rewrite ?app_nil_r, !norm_or_none, <- ?app_assoc. reflexivity.
+Qed.
+
+Theorem profile_closed c uuids d dtprofup ov oc gen r :
+  request_profile c uuids d dtprofup ov oc gen = OK r ->
+  exists u rest,
+    uuids = u :: rest
+    /\ c_body r = Node (T "OFX") None
+         [spec_signon c d auth_placeholder auth_placeholder;
+          Node (T "PROFMSGSRQV1") None
+            [wrapper "PROFTRNRQ" u
+               (Node (T "PROFRQ") None
+                  (leaf (T "CLIENTROUTING") (Some (T "NONE"))
+                   ++ leaf (T "DTPROFUP") (dtext (match dtprofup with DNone => default_dtprofup | _ => dtprofup end))))]]%list
+    /\ header_text (dflt ov (version c)) (if gen then hd_error rest else None) = OK (c_header r)
+    /\ negb (dflt oc (close_elements c)) && (200 <=? dflt ov (version c)) = false.
+Proof.
+  unfold request_profile, trnrq. intros H. inv_ok.
+  destruct uuids as [|u rest]; [discriminate|]. cbn [take_uuid] in *.
+  repeat match goal with H : OK (_, _) = OK _ |- _ => inversion H; subst; clear H end. cbn [fst snd] in *.
+  match goal with H : signon _ _ _ _ = OK _ |- _ => apply signon_shape in H; destruct H as [-> _] end.
+  match goal with H : mk_OFX _ _ = OK _ |- _ => apply mk_OFX_ok in H; destruct H as [ch [Hc ->]] end.
+  repeat (apply collect_cons in Hc; let a := fresh "a" in let b := fresh "b" in let Ha := fresh "Ha" in
+          destruct Hc as [a [b [Ha [Hc ->]]]]).
+  apply collect_nil in Hc. subst.
+  match goal with H : aggl _ _ = OK _ |- _ => apply aggl_ok in H; subst end.
+  inv_aggs. inv_fields.
+  match goal with H : serialize _ _ _ _ _ = OK _ |- _ => apply serialize_ok in H; destruct H as [Eb [Eh Eg]] end.
+  match goal with H : (if gen then _ else _) = OK ?nf |- _ => apply newfileuid_ok in H; rename H into En end.
+  exists u, rest. rewrite En in Eh. rewrite Eb.
+  split; [reflexivity|]. split; [|split; assumption].
+  unfold wrapper. cbn [olist app dflt keep]. rewrite ?app_nil_r. reflexivity.
+Qed.
+
+(* ------------------------------------------------------------------ transaction ids *)
+(** the TRNUID a wrapper carries (its first child, if that is a TRNUID element) *)
+Definition wrapper_trnuid (w : etree) : list text :=
+  match children_of w with
+  | Node g (Some x) [] :: _ => if text_eqb g (T "TRNUID") then [x] else []
+  | _ => []
+  end.
+(** all TRNUIDs of a composed body, in document order: message sets, then their wrappers *)
+Definition trnuids (body : etree) : list text :=
+  flat_map (fun m => flat_map wrapper_trnuid (children_of m)) (children_of body).
+
+Definition not_trnuid (n : etree) : Prop := text_eqb (tag_of n) (T "TRNUID") = false \/ txt_of n = None.
+Lemma wrapper_trnuid_none g x l : Forall not_trnuid l -> wrapper_trnuid (Node g x l) = [].
+Proof.
+  unfold wrapper_trnuid. cbn [children_of]. destruct l as [|[g' [t|] ch] l]; intros F; try reflexivity.
+  inversion F; subst. destruct H1 as [E|E]; cbn [tag_of txt_of] in E; [rewrite E; destruct ch; reflexivity|discriminate].
+Qed.
+Lemma leaf_not_trnuid t v : text_eqb t (T "TRNUID") = false -> Forall not_trnuid (leaf t v).
+Proof. intros E. destruct v; cbn [leaf]; [constructor; [left; exact E|constructor]|constructor]. Qed.
+
+Lemma signon_no_trnuid c d uid pw : flat_map wrapper_trnuid (children_of (spec_signon c d uid pw)) = [].
+Proof.
+  unfold spec_signon. cbn [children_of flat_map]. rewrite app_nil_r. apply wrapper_trnuid_none.
+  repeat (apply Forall_app; split); try (apply leaf_not_trnuid; reflexivity).
+  destruct (truthy (org c)); [constructor; [right; reflexivity|constructor]|constructor].
+Qed.
+
+Definition trnuid_of (u : text) : list text := olist (norm (Some u)).
+Lemma wrapper_trnuid_spec c r u : wrapper_trnuid (spec_wrapper c r u) = trnuid_of u.
+Proof.
+  unfold trnuid_of, norm. destruct r; cbn [spec_wrapper]; unfold wrapper, wrapper_trnuid; cbn [children_of];
+  destruct u as [|x s]; cbn [leaf app olist]; reflexivity.
+Qed.
+Lemma trnuids_W c l : forall us, List.length us = List.length l -> flat_map wrapper_trnuid (W c l us) = flat_map trnuid_of us.
+Proof.
+  unfold W. induction l as [|r l IH]; intros [|u us] L; try discriminate L; [reflexivity|].
+  cbn [combine map flat_map fst snd]. rewrite wrapper_trnuid_spec. f_equal. apply IH. injection L. auto.
+Qed.
+Lemma trnuids_mset m ws :
+  flat_map (fun n => flat_map wrapper_trnuid (children_of n)) (olist (mset m ws)) = flat_map wrapper_trnuid ws.
+Proof. destruct ws as [|w ws]; [reflexivity|]. cbn [mset olist flat_map children_of]. apply app_nil_r. Qed.
+
+(** a uuid as uuid4 prints it: non-empty, no '&' *)
+Definition plain (u : text) : bool := nonempty u && no_amp u.
+Lemma trnuid_of_plain us : forallb plain us = true -> flat_map trnuid_of us = us.
+Proof.
+  induction us as [|u us IH]; [reflexivity|]. cbn [forallb flat_map]. intros H. apply andb_true_iff in H. destruct H as [P H].
+  rewrite IH by assumption. unfold plain in P. apply andb_true_iff in P. destruct P as [NE NA].
+  unfold trnuid_of, norm. destruct u as [|x s]; [discriminate|]. rewrite unescape_no_amp by assumption. reflexivity.
+Qed.
+
+Lemma NoDup_app_l {A} (a b : list A) : NoDup (a ++ b) -> NoDup a.
+Proof.
+  induction a as [|x a IH]; intros H; [constructor|]. inversion H; subst. constructor; [|auto].
+  intros I. apply H2. apply in_or_app. left. exact I.
+Qed.
+
+Theorem statements_trnuids c uuids d pw gen reqs r :
+  request_statements c uuids d pw gen reqs = OK r ->
+  forallb plain uuids = true -> NoDup uuids ->
+  NoDup (trnuids (c_body r)) /\ List.length (trnuids (c_body r)) = List.length reqs
+  /\ forall u, In u (trnuids (c_body r)) -> In u uuids.
+Proof.
+  intros H P ND. apply statements_closed in H.
+  destruct H as [u0 [u1 [u2 [u3 [u4 [rest [-> [L0 [L1 [L2 [L3 [L4 [-> _]]]]]]]]]]]]].
+  unfold trnuids. cbn [children_of flat_map]. rewrite signon_no_trnuid. cbn [app].
+  rewrite !flat_map_app, !trnuids_mset, !flat_map_app, !trnuids_W by assumption.
+  rewrite !forallb_app in P. repeat (apply andb_true_iff in P; let Q := fresh "Q" in destruct P as [Q P]).
+  rewrite !trnuid_of_plain by assumption.
+  assert (PM : Permutation ((u3 ++ u4) ++ (u0 ++ u1) ++ u2) (u0 ++ u1 ++ u2 ++ u3 ++ u4)).
+  { rewrite (app_assoc u0 u1), (app_assoc (u0 ++ u1) u2). rewrite (app_assoc (u3 ++ u4)).
+    apply Permutation_app_comm. }
+  assert (ND5 : NoDup (u0 ++ u1 ++ u2 ++ u3 ++ u4)).
+  { rewrite !app_assoc in ND. apply NoDup_app_l in ND. rewrite <- !app_assoc in ND. exact ND. }
+  split; [|split].
+  - eapply Permutation_NoDup; [apply Permutation_sym, PM|exact ND5].
+  - rewrite (Permutation_length PM). rewrite !app_length, <- (of_kind_total reqs). lia.
+  - intros u I. eapply Permutation_in in I; [|exact PM]. rewrite !app_assoc. apply in_or_app. left. rewrite <- !app_assoc. exact I.
+Qed.
+
+(* ------------------------------------------------------------------ header, refusals *)
+Lemma header_text_ok ver nf h :
+  header_text ver nf = OK h ->
+  exists nf', (ver / 100 = 1 /\ h = header_v1 ver nf')
+              \/ (ver / 100 = 2 /\ In ver hdr_v2_versions /\ h = header_v2 ver nf').
+Proof.
+  unfold header_text. intros H. inv_ok. exists x.
+  destruct (ver / 100 =? 1) eqn:E1.
+  - apply N.eqb_eq in E1. destruct (ver <? 10 ^ hdr_v1_version_len); inversion H. left. auto.
+  - destruct (ver / 100 =? 2) eqn:E2; [|discriminate]. apply N.eqb_eq in E2.
+    destruct (existsb (N.eqb ver) hdr_v2_versions) eqn:EX; inversion H. right. split; [assumption|]. split; [|reflexivity].
+    apply existsb_exists in EX. destruct EX as [v [I E]]. apply N.eqb_eq in E. subst. exact I.
+Qed.
+
+(** the VERSION field of the header text is the decimal numeral of the version *)
+Lemma header_v1_version ver nf : exists a b, header_v1 ver nf = (a ++ T "VERSION:" ++ dec_of_N ver ++ crlf ++ b)%list
+                                         /\ a = (T "OFXHEADER:100" ++ crlf ++ T "DATA:OFXSGML" ++ crlf)%list.
+Proof. eexists _, _. split; [|reflexivity]. unfold header_v1. rewrite <- !app_assoc. reflexivity. Qed.
+Lemma header_v2_version ver nf : exists a b, header_v2 ver nf = (a ++ T "VERSION=""" ++ dec_of_N ver ++ T """" ++ b)%list
+                                         /\ a = (T "<?xml version=""1.0"" encoding=""UTF-8"" standalone=""no""?>" ++ crlf ++ T "<?OFX OFXHEADER=""200"" ")%list.
+Proof. eexists _, _. split; [|reflexivity]. unfold header_v2. rewrite <- !app_assoc. reflexivity. Qed.
+
+Lemma client_init_refuses a :
+  dflt (a_close_elements a) d_close_elements = false -> 200 <= dflt (a_version a) d_version ->
+  client_init a = Err Reject.
+Proof.
+  intros C V. unfold client_init. cbn [close_elements version]. rewrite C. apply N.leb_le in V. rewrite V. reflexivity.
+Qed.
+Lemma client_init_ok a c : client_init a = OK c -> negb (close_elements c) && (200 <=? version c) = false.
+Proof.
+  unfold client_init. match goal with |- (if ?g then _ else _) = _ -> _ => destruct g eqn:G end; [discriminate|].
+  intros E. inversion E; subst. exact G.
+Qed.
+Lemma serialize_refuses c ov oc nf body :
+  dflt oc (close_elements c) = false -> 200 <= dflt ov (version c) -> is_ok (serialize c ov oc nf body) = false.
+Proof.
+  intros C V. unfold serialize. destruct (header_text (dflt ov (version c)) nf); [|reflexivity].
+  cbn [bind]. rewrite C. apply N.leb_le in V. rewrite V. reflexivity.
 Qed.
